@@ -528,6 +528,7 @@ static void run_rw(const Form* forms, uint32_t nforms, int split = 0) {
   InstRWInfo rw;
   Error e = x86::InstInternal::query_rw_info(X64 ? Arch::kX64 : Arch::kX86, inst, o, f0.nops, &rw);
   V_ASSERT(e == Error::kOk, "read/write information is available for the form");
+  if (e != Error::kOk) return;   // nothing was filled in: reading it would be garbage (and differ between the native twins)
   V_ASSERT(rw.op_count() == f0.nops, "operand count reported");
   for (uint32_t i = 0; i < f0.nops; i++) {
     const Op& op = f0.ops[i]; const OpRWInfo& w = rw.operand(i);
